@@ -116,10 +116,19 @@ func lastKey(o *mach.Out) string {
 func (e *Explorer) add(s *State) {
 	s.ID = len(e.States)
 	e.States = append(e.States, s)
-	e.index[s.Key+" || "+s.Ref.Key()] = s
+	e.index[e.ident(s.Key, s.Ref)] = s
 	if e.OnState != nil {
 		e.OnState(s)
 	}
+}
+
+// ident is the identity of a product state; without a reference (SEN
+// machines) the implementation key alone identifies it.
+func (e *Explorer) ident(key string, ref *jsonref.PDA) string {
+	if e.NoRef {
+		return key
+	}
+	return key + " || " + ref.Key()
 }
 
 func (e *Explorer) step(s *State, sym Sym) {
@@ -155,7 +164,7 @@ func (e *Explorer) step(s *State, sym Sym) {
 		e.CutDepth++
 	}
 	if expand {
-		k := t.Key + " || " + t.Ref.Key()
+		k := e.ident(t.Key, t.Ref)
 		if to, ok := e.index[k]; ok {
 			t.To = to
 		} else {
